@@ -15,7 +15,7 @@ inductive DSt
   | sr (s : SR)
   | ct (s : CT)
   | ss (s : SS)
-  | ev (s : EV)
+  | ev (s : EV) (top : Nat)
   | wg (s : WG)
 
 def parseNatLists (toks : List String) : Option (List (List Nat)) := toks.mapM parseNats
@@ -78,9 +78,15 @@ def stepLine (st : DSt) (toks : List String) : DSt × String :=
   | "ss" :: rest =>
     let s := match st with | .ss s => s | _ => SS.init false
     let r := s.stepLine rest; (.ss r.1, r.2)
+  | ["ev", "new"] => (.ev EV.init (2 ^ 63 - 1), "ok")
+  | ["ev", "new", ty] =>
+    match evTop ty with
+    | some top => (.ev EV.init top, "ok")
+    | none => (.none, "bad-op")
   | "ev" :: rest =>
-    let s := match st with | .ev s => s | _ => EV.init
-    let r := s.stepLine rest; (.ev r.1, r.2)
+    match st with
+    | .ev s top => let r := s.stepLine top rest; (.ev r.1 top, r.2)
+    | _ => (st, "bad-op")
   | ["wg", "new", xs] =>
     match parseNats xs with
     | some xs => let s := WG.init.step (.add xs); (.wg s, s.show)
